@@ -170,7 +170,7 @@ PROPS["C13"] = {
 PROPS["C17"] = {
     "mir": "c17",
     "level": "other",
-    "explanation": "Symbolic data-flow / reachability checking over the real MIR of every parser body (hand-written and peg-generated, ~320 bodies) and of dispatch_command (z3): no reachable unwrap / expect consumes the result of a conversion of input text, and no feasible path of dispatch_command reaches a panic for any Command variant. Candidates are replayed natively through the public parse_command with boundary inputs derived from the converted types; the inputs of repaired findings stay in the replay set. B-5: the OR / AND / NOT rules of the QUERY and PLOT expression grammars form precedence strata (operand rules, recursion, keyword guards, re-entry into the whole-expression rule only after a matched open parenthesis); a structural deviation is confirmed on the real parser with unparenthesised sample expressions. B-6: no grammar action compares matched keyword text with an alphabetic constant by exact equality; confirmed by re-spelling the keywords of sample commands in mixed case on the real parser.",
+    "explanation": "Symbolic data-flow / reachability checking over the real MIR of every parser body (hand-written and peg-generated, ~320 bodies) and of dispatch_command (z3): no reachable unwrap / expect consumes the result of a conversion of input text, and no feasible path of dispatch_command reaches a panic for any Command variant. Candidates are replayed natively through the public parse_command with boundary inputs derived from the converted types; the inputs of repaired findings stay in the replay set. B-5: the OR / AND / NOT rules of the QUERY and PLOT expression grammars form precedence strata (operand rules, recursion, keyword guards, re-entry into the whole-expression rule only after a matched open parenthesis); a structural deviation is confirmed on the real parser with unparenthesised sample expressions. B-6: no grammar action compares matched keyword text with an alphabetic constant by exact equality; confirmed by re-spelling the keywords of sample commands in mixed case on the real parser. B-7: no narrowing `as` cast of a number parsed from the input text is reachable with a value outside the target type (for each such cast the solver is asked for an out-of-range value under the cast's path condition; replayed on the real parser).",
     "trusted_base": MIR_TRUSTED + ["native replay program /verif/native (plain cargo build of /repo with the repository toolchain)"],
     "outside": [
         "totality over all byte strings (the PEG parser does not run under Kani: 2 symbolic bytes > 25 min); slice-index and arithmetic panics whose operands are not conversions of input text",
@@ -184,7 +184,7 @@ PROPS["C07"] = {
     "kani": "c07",
     "mir": "c07",
     "level": "model_checking",
-    "explanation": "Bounded model checking (Kani/CBMC) of the value path both tiers share: JSON number / bool / null -> ScalarValue -> JSON is the identity over the full i64 / u64<=i64::MAX / f64 ranges, and the segment tier's cell-to-value mapping (EventBuilder::add_field_i64/u64/f64/bool/null and the string-cell mapping) yields exactly the value the memory tier holds, including strings that look like numbers, booleans or null; plus a MIR data-flow obligation that the segment reader passes string cells to the text-preserving entry point. Engine B B-2: the flush writer's field-type to physical-column-type mapping (ColumnWriter::write_all) equals the readers' field_type_to_physical_type for every declared type and its nullable form; a counterexample is replayed end to end on the real engine (QUERY before and after FLUSH).",
+    "explanation": "Bounded model checking (Kani/CBMC) of the value path both tiers share: JSON number / bool / null -> ScalarValue -> JSON is the identity over the full i64 / u64<=i64::MAX / f64 ranges, and the segment tier's cell-to-value mapping (EventBuilder::add_field_i64/u64/f64/bool/null and the string-cell mapping) yields exactly the value the memory tier holds, including strings that look like numbers, booleans or null; plus a MIR data-flow obligation that the segment reader passes string cells to the text-preserving entry point. Engine B B-2: the flush writer's field-type to physical-column-type mapping (ColumnWriter::write_all) equals the readers' field_type_to_physical_type for every declared type and its nullable form; a counterexample is replayed end to end on the real engine (QUERY before and after FLUSH). B-3: ColumnGroupBuilder::finish records for every VarBytes value the byte length of exactly the bytes appended to the payload (the reader cuts the payload by these lengths).",
     "trusted_base": MIR_TRUSTED,
     "outside": [
         "strings longer than 3 bytes / non-ASCII, u64 above i64::MAX (decimal-string representation; serde_json::from_str does not finish under Kani)",
